@@ -100,6 +100,10 @@ def spectrum(c):
     rec['in_order'] = guarded(in_order)
     if fs.folded:
         rec['via_unfold'] = guarded(lambda: fs.unfold().project(ns).fold())
+        if c.get('large'):
+            # the unfolded spectrum Spectrum.project works on, and its projection before folding back
+            rec['unfolded'] = guarded(lambda: fs.unfold())
+            rec['unfold_project'] = guarded(lambda: fs.unfold().project(ns))
     else:
         rec['fold_project'] = guarded(lambda: fs.fold().project(ns))
         rec['project_fold'] = guarded(lambda: fs.project(ns).fold())
